@@ -9,7 +9,8 @@ out_progress3.txt -- whichever exist -- and returns (every key always present, n
             (its text may carry outline placeholders).
   readback {done, parse_exc (exception type of behave.json_parser.parse(file)), exc (exception type of
             JsonParser().parse_features(json.load(..))), line_is_text (feature.line of the returned model is no int, so
-            str(feature.location) raises), features: [{el, scens: [{el, npre, steps: [{pos, status}]}]}]}
+            str(feature.location) raises), features: [{el, scens: [{el, npre, steps: [{pos, status}]}]}],
+            tables: [{el, pos, headings, rows}] data tables of the steps of the returned scenarios}
             scens = feature.walk_scenarios() of the returned model, steps = scenario.steps, npre = number of steps that
             scenario.all_steps has in front of them.
   plain    {present, lines: [{scen, pos, status}]}  the `Given own 1 ... passed in 0.000s` lines (one regex) in file
@@ -17,6 +18,9 @@ out_progress3.txt -- whichever exist -- and returns (every key always present, n
   p2       {present, lines: [{feat, chars}]}        progress2: `<file>  <status characters>` per feature
   p3       {present, lines: [{scen, chars}]}        progress3: `<scenario name>  <status characters>` per scenario
   p1       {present, lines: [{feat, chars}]}        progress (scenario variant)
+  tables   {json, model: [{el, pos, headings, rows}], jtext, mtext: [{el, pos, lines}]}  data tables / doc-strings of the
+            steps of scenario elements in the JSON report, and of scenario.all_steps of the model after the run
+            (step.table.headings, row.cells, step.text), in document order
   error    "" or what could not be read at all
 Python only reads and maps; what the reports should contain is decided by specs/Consumers_Trace.tla."""
 import json
@@ -118,7 +122,7 @@ def _json(path, M):
 
 
 def _readback(path, data, M):
-    out = {"done": False, "parse_exc": "", "exc": "", "line_is_text": False, "features": []}
+    out = {"done": False, "parse_exc": "", "exc": "", "line_is_text": False, "features": [], "tables": []}
     if path is None or data is None:
         return out
     out["done"] = True
@@ -137,12 +141,45 @@ def _readback(path, data, M):
                 sid = M.at(s)
                 own = list(s.steps)
                 allsteps = list(s.all_steps)
+                for st in own:
+                    if st.table is not None:
+                        out["tables"].append({"el": sid, "pos": M.pos(sid, st.name), "headings": [str(c) for c in st.table.headings],
+                                              "rows": [[str(c) for c in r.cells] for r in st.table.rows]})
                 fe["scens"].append({"el": sid, "npre": len(allsteps) - len(own),
                                     "steps": [{"pos": M.pos(sid, st.name), "status": st.status.name} for st in own]})
             out["features"].append(fe)
     except Exception as x:                                  # noqa
         out["exc"] = type(x).__name__
         out["features"] = []
+        out["tables"] = []
+    return out
+
+
+def _tables(data, M, env):
+    out = {"json": [], "model": [], "jtext": [], "mtext": []}
+    for f in data or []:
+        for x in f.get("elements", []):
+            if x.get("type") == "background":
+                continue
+            el = M.loc(x.get("location", ""))
+            for s in x.get("steps", []):
+                pos = M.pos(el, s.get("name"))
+                if "table" in s:
+                    t = s["table"] or {}
+                    out["json"].append({"el": el, "pos": pos, "headings": [str(c) for c in t.get("headings", [])],
+                                        "rows": [[str(c) for c in r] for r in t.get("rows", [])]})
+                if "text" in s:
+                    tx = s["text"]
+                    out["jtext"].append({"el": el, "pos": pos, "lines": "\n".join(tx).split("\n") if isinstance(tx, list) else str(tx).split("\n")})
+    for f in env.feats:
+        for sc in f.walk_scenarios():
+            el = env.elid(sc)
+            for i, st in enumerate(sc.all_steps):
+                if st.table is not None:
+                    out["model"].append({"el": el, "pos": i + 1, "headings": [str(c) for c in st.table.headings],
+                                         "rows": [[str(c) for c in r.cells] for r in st.table.rows]})
+                if st.text:
+                    out["mtext"].append({"el": el, "pos": i + 1, "lines": str(st.text).split("\n")})
     return out
 
 
@@ -192,13 +229,15 @@ def project(env):
     try:
         out["json"], data = _json(jpath, M)
         out["readback"] = _readback(jpath, data, M)
+        out["tables"] = _tables(data, M, env)
         out["plain"] = _plain(_first(d, ["out_plain.txt"]), M)
         out["p1"] = _p2(_first(d, ["out_progress.txt"]), M)
         out["p2"] = _p2(_first(d, ["out_progress2.txt"]), M)
         out["p3"] = _p3(_first(d, ["out_progress3.txt"]), M)
     except (OSError, UnicodeError) as x:
         out = {"error": type(x).__name__, "json": {"present": False, "valid": False, "features": []},
-               "readback": {"done": False, "parse_exc": "", "exc": "", "line_is_text": False, "features": []},
+               "readback": {"done": False, "parse_exc": "", "exc": "", "line_is_text": False, "features": [], "tables": []},
+               "tables": {"json": [], "model": [], "jtext": [], "mtext": []},
                "plain": {"present": False, "lines": []}, "p1": {"present": False, "lines": []},
                "p2": {"present": False, "lines": []}, "p3": {"present": False, "lines": []}}
     return out
